@@ -188,7 +188,20 @@ pub(crate) fn apply_rules_on_link(
         .intersection(&product_paths)
         .cloned()
         .filter_map(|name| {
-            if src_link.materials[&name] != src_link.products[&name] {
+            // look the artifacts up by their canonicalized paths: the maps
+            // of the link are keyed by the paths as recorded
+            let find = |artifacts: &BTreeMap<
+                VirtualTargetPath,
+                TargetDescription,
+            >| {
+                artifacts
+                    .iter()
+                    .find(|(path, _)| {
+                        canonicalize_path(path).as_ref() == Some(&name)
+                    })
+                    .map(|(_, description)| description.clone())
+            };
+            if find(&src_link.materials) != find(&src_link.products) {
                 Some(name)
             } else {
                 None
